@@ -35,12 +35,17 @@ func genAFContent(t *rapid.T, a *ref.AF) {
 	if rapid.IntRange(0, 3).Draw(t, "af-sparse") == 0 {
 		want = 0
 	}
+	// clock fields in canonical form (reserved bits 1, extension < 300): what "the ISO serialisation of the value" is
+	canon := func(label string) *ref.Hex {
+		e := ref.EncodePCR(genBits(t, 33, label+"-base"), uint16(rapid.IntRange(0, 299).Draw(t, label+"-ext")))
+		return hexp(e[:])
+	}
 	if want&16 != 0 && room >= 6 {
-		a.PCR = hexp(genBytes(t, 6, 6, "pcr"))
+		a.PCR = canon("pcr")
 		room -= 6
 	}
 	if want&8 != 0 && room >= 6 {
-		a.OPCR = hexp(genBytes(t, 6, 6, "opcr"))
+		a.OPCR = canon("opcr")
 		room -= 6
 	}
 	if want&4 != 0 && room >= 1 {
